@@ -141,6 +141,11 @@ fn run_thread(sh: &Arc<Shared>, t: usize, ops: &[Value], controlled: bool) {
         };
         obs::api("inv", &[], idx, t as u64, 0);
         let (r, items) = exec(&sh.store, &sh.keys, op, &sh.vals);
+        if !controlled {
+            // what the caller itself can see right after its call returned (C13: an admitted write never
+            // leaves usage above the limit); kept undecimated (b = 1)
+            obs::api("mem", &[], sh.store.memory_usage() as u64, 1, 0);
+        }
         obs::api("res", &[], idx, t as u64, 0);
         sh.ress.lock().unwrap().insert(idx, (r, items));
         if controlled {
@@ -223,7 +228,7 @@ fn history(raw: &[RawEv], sh: &Shared, keys: &[Vec<u8>]) -> Vec<Value> {
                 out.push(json!({"e": "pub", "t": if t == 0 { 1 } else { t }, "bg": t == 0, "k": k,
                                 "ts": limbs(e.a), "exp": limbs(e.b), "kind": e.c}));
             }
-            "mem" => out.push(json!({"e": "mem", "v": e.a})),
+            "mem" => out.push(json!({"e": "mem", "v": e.a, "own": e.b})),
             _ => {}
         }
     }
@@ -349,6 +354,7 @@ pub fn main(args: &[String]) -> i32 {
     match o.get("mode").unwrap_or("dfs") {
         "dfs" => dfs_main(&o),
         "storm" => storm_main(&o),
+        "limitstorm" => limitstorm_main(&o),
         _ => free_main(&o),
     }
 }
@@ -512,7 +518,7 @@ fn free_main(o: &Opts) -> i32 {
         let mut hist = history(&raw, &sh, &sh.keys);
         // keep the trace small: at most every 8th memory sample
         let mut c = 0;
-        hist.retain(|e| { if e["e"] == "mem" { c += 1; c % 8 == 0 } else { true } });
+        hist.retain(|e| { if e["e"] == "mem" && e["own"] == 0 { c += 1; c % 8 == 0 } else { true } });
         ev.extend(hist);
         ev.push(final_event(&sh.store, &sh.keys));
         if pers { ev.push(settled_event(&sh.store, cfg["blocks"].as_u64().unwrap_or(64))); }
@@ -539,6 +545,60 @@ fn free_main(o: &Opts) -> i32 {
     out.flush().unwrap();
     let _ = std::fs::remove_file(&path);
     println!("{}", json!({"rounds": rounds, "events": events}));
+    0
+}
+
+/// C13: creators and deleters hammer a memory limit that admits only half of them, without any
+/// recording in their way; every writer looks at memory_usage() right after each admitted insert and a
+/// monitor polls it.  The trace holds the reset, the PEAK usage anybody saw (one `mem` event) and the
+/// quiescent final state; LinTrace's MemBound judges it.
+fn limitstorm_main(o: &Opts) -> i32 {
+    use std::sync::atomic::{AtomicBool, AtomicU64, Ordering};
+    let seed: u64 = o.num("seed", 1);
+    let nthreads: usize = o.num("threads", 8);
+    let millis: u64 = o.num("millis", 1500);
+    let admit: usize = o.num("admit", nthreads / 2);
+    crate::util::watchdog::start(o.num("watchdog", 60));
+    let mut out = std::io::BufWriter::new(std::fs::File::create(o.req("out")).expect("out"));
+    let keynames: Vec<String> = (1..=nthreads).map(|i| format!("k{i}")).collect();
+    let vlen = 3 + (seed % 5) as usize;
+    let footprint = FeoxStore::verif_record_overhead() + 2 + vlen;
+    let lim = (admit * footprint) as i64;
+    let prog = json!({"cfg": {"pers": false, "ttl": false, "cache": false, "lim": lim}, "keys": keynames, "init": [], "threads": []});
+    feoxdb::verif::set_now(NOW);
+    let (sh, _) = setup_program(&prog, "");
+    let reset = reset_event(&prog["cfg"], &sh.keys, &sh.store, nthreads, &sh.vals, &[]);
+    let stop = Arc::new(AtomicBool::new(false));
+    let peak = Arc::new(AtomicU64::new(0));
+    let admitted = Arc::new(AtomicU64::new(0));
+    let mut hs = Vec::new();
+    for t in 0..nthreads {
+        let (sh2, stop2, peak2, adm2) = (sh.clone(), stop.clone(), peak.clone(), admitted.clone());
+        hs.push(std::thread::spawn(move || {
+            let key = sh2.keys[t].clone();
+            let val = vec![b'v'; vlen];
+            while !stop2.load(Ordering::Relaxed) {
+                if sh2.store.insert(&key, &val).is_ok() {
+                    peak2.fetch_max(sh2.store.memory_usage() as u64, Ordering::Relaxed);
+                    adm2.fetch_add(1, Ordering::Relaxed);
+                    let _ = sh2.store.delete(&key);
+                }
+            }
+        }));
+    }
+    let t0 = std::time::Instant::now();
+    while t0.elapsed() < Duration::from_millis(millis) {
+        peak.fetch_max(sh.store.memory_usage() as u64, Ordering::Relaxed);
+        crate::util::watchdog::beat("limitstorm");
+    }
+    stop.store(true, Ordering::SeqCst);
+    for h in hs { let _ = h.join(); }
+    // quiescence with nothing stored: usage and len must be back at zero
+    for k in &sh.keys { let _ = sh.store.delete(k); }
+    let ev = vec![reset, json!({"e": "mem", "v": peak.load(Ordering::SeqCst), "own": 1}), final_event(&sh.store, &sh.keys)];
+    for e in &ev { writeln!(out, "{}", e).unwrap(); }
+    out.flush().unwrap();
+    println!("{}", json!({"rounds": 1, "events": ev.len(), "admitted": admitted.load(Ordering::SeqCst), "peak": peak.load(Ordering::SeqCst), "lim": lim}));
     0
 }
 
